@@ -16,6 +16,7 @@ import (
 	"context"
 	"encoding/json"
 	"fmt"
+	"os"
 	"sort"
 	"strings"
 	"sync"
@@ -351,6 +352,8 @@ type oper struct {
 	crashAt  int64
 	decided  int // aggregated decided messages broadcast
 	lastSent specqbft.Round
+	curRound specqbft.Round           // last armed round
+	leftAt   map[specqbft.Round]int64 // when the operator left round r (armed a timer for a later round)
 }
 
 func (o *oper) block(until int64) {
@@ -377,6 +380,7 @@ type event struct {
 	r     specqbft.Round
 	gen   int
 	rAtEm specqbft.Round // receiver's round when the message was emitted (0 = not in an instance)
+	te    int64          // emission time of the carried message
 }
 
 type evHeap []*event
@@ -452,6 +456,8 @@ func roleMaxRound(role spectypes.BeaconRole) specqbft.Round {
 }
 
 var logger = zap.NewNop()
+
+var verbose = false
 
 func newSim(p Prog) *sim {
 	fixtures()
@@ -577,6 +583,17 @@ func (s *sim) deadline(o *oper, h specqbft.Height, r specqbft.Round) (int64, boo
 
 func (s *sim) onArm(o *oper, h specqbft.Height, r specqbft.Round) {
 	o.armGen++
+	if o.leftAt == nil {
+		o.leftAt = map[specqbft.Round]int64{}
+	}
+	for q := o.curRound; q < r; q++ {
+		if _, ok := o.leftAt[q]; !ok {
+			o.leftAt[q] = o.now
+		}
+	}
+	if r > o.curRound {
+		o.curRound = r
+	}
 	if r > s.reachedRound && o.faulty == nil {
 		s.reachedRound = r
 	}
@@ -749,7 +766,7 @@ func (s *sim) onBroadcast(o *oper, m *spectypes.SSVMessage) {
 		if inst := rcv.inst(); inst != nil {
 			rAt = inst.State.Round
 		}
-		s.push(&event{t: at, kind: evArrive, op: rcv, msg: dec, rAtEm: rAt})
+		s.push(&event{t: at, kind: evArrive, op: rcv, msg: dec, rAtEm: rAt, te: te})
 	}
 }
 
@@ -799,10 +816,17 @@ func (s *sim) validate(o *oper, m *spectypes.SSVMessage, dec *queue.DecodedSSVMe
 	if err != nil && text == "" {
 		text = "non-validation-error: " + err.Error()
 	}
-	s.logf("t=%d op%d sends %s r%d (%d bytes) -> peer at t=%d: %s %s", te, o.id, kind, round, len(data), recv, class, text)
+	fd := ""
+	if sm, ok := dec.Body.(*specqbft.SignedMessage); ok && verbose {
+		fd = fmt.Sprintf(" [signers=%v root=%x fulldata=%d:%s prepared-round=%d]", sm.Signers, sm.Message.Root[:3], len(sm.FullData), prog.Hash(sm.FullData), sm.Message.DataRound)
+	}
+	s.logf("t=%d op%d sends %s r%d (%d bytes)%s -> peer at t=%d: %s %s", te, o.id, kind, round, len(data), fd, recv, class, text)
 	if o.faulty != nil {
 		if class != "accept" {
 			s.unjudged[class+":"+text]++
+			if os.Getenv("C10_DEBUG_UNJUDGED") != "" && strings.Contains(text, os.Getenv("C10_DEBUG_UNJUDGED")) && s.fail == nil {
+				s.fail = prog.Failf("C10:debug-unjudged", "debug: faulty operator %d %s r%d: %s %s", o.id, kind, round, class, text)
+			}
 		}
 		return
 	}
@@ -818,6 +842,9 @@ func (s *sim) validate(o *oper, m *spectypes.SSVMessage, dec *queue.DecodedSSVMe
 	if class == "reject" {
 		if s.violated {
 			s.outOfPremise[text+":"+kind]++
+			if d := os.Getenv("C10_DEBUG_OOP"); d != "" && strings.Contains(text, d) && s.fail == nil {
+				s.fail = prog.Failf("C10:debug-oop", "debug: op %d %s r%d: %s %s", o.id, kind, round, class, text)
+			}
 			return
 		}
 		sig := "C10:reject:" + slug(text) + ":" + kind
@@ -831,7 +858,7 @@ func (s *sim) validate(o *oper, m *spectypes.SSVMessage, dec *queue.DecodedSSVMe
 		}
 		return
 	}
-	if class == "ignore" && s.faultFree() && s.p.InOrder && s.fail == nil {
+	if class == "ignore" && s.faultFree() && s.p.InOrder && !s.violated && s.fail == nil {
 		if s.staleFromLagging(dec, text) {
 			s.results["stale-from-lagging-operator:"+kind]++
 			return
@@ -908,6 +935,15 @@ func (s *sim) consume(o *oper, t int64) {
 		msg := o.q.TryPop(queue.NewMessagePrioritizer(&st), filter)
 		if msg == nil {
 			return
+		}
+		if verbose {
+			d := ""
+			if sm, ok := msg.Body.(*specqbft.SignedMessage); ok {
+				d = fmt.Sprintf(" r%d signers=%v", sm.Message.Round, sm.Signers)
+			} else if pm, ok := msg.Body.(*spectypes.SignedPartialSignatureMessage); ok {
+				d = fmt.Sprintf(" signer=%d", pm.Signer)
+			}
+			s.logf("t=%d   op%d (round %d) processes %s%s", t, o.id, st.Round, msgKind(nil, msg.Body), d)
 		}
 		var err error
 		switch body := msg.Body.(type) {
@@ -994,8 +1030,13 @@ func (s *sim) run() {
 			}
 		case evArrive:
 			if sm, ok := e.msg.Body.(*specqbft.SignedMessage); ok && len(sm.Signers) == 1 {
-				// premise monitor: the link, not the receiver's own lag, carried the message past its round
-				if inst := o.inst(); inst != nil && inst.State.Round > sm.Message.Round && e.rAtEm != 0 && e.rAtEm <= sm.Message.Round {
+				// premise monitor: the link carried the message past the end of its round at this receiver - the
+				// receiver was in the message's round (or before it) when the message was emitted and left that
+				// round strictly later, before the message arrived. (A receiver that had left the round already,
+				// or races through rounds whose deadlines have passed at the very instant of emission, makes the
+				// message stale at its source; that is not the link's doing.)
+				left, was := o.leftAt[sm.Message.Round]
+				if inst := o.inst(); inst != nil && inst.State.Round > sm.Message.Round && e.rAtEm != 0 && e.rAtEm <= sm.Message.Round && was && left > e.te {
 					if !s.violated {
 						s.logf("t=%d PREMISE: %s r%d from op%v reaches op%d in round %d", e.t, msgKind(nil, sm), sm.Message.Round, sm.Signers, o.id, inst.State.Round)
 					}
@@ -1039,16 +1080,18 @@ func (s *sim) noteSent(o *oper, r specqbft.Round) {
 	}
 }
 
-func run(p Prog) *prog.Result {
+func run(p Prog) *prog.Result { r, _ := runSim(p); return r }
+
+func runSim(p Prog) (*prog.Result, *sim) {
 	if err := sane(p); err != "" {
-		return &prog.Result{Discard: true, Classes: []string{"insane-program:" + err}}
+		return &prog.Result{Discard: true, Classes: []string{"insane-program:" + err}}, nil
 	}
 	s := newSim(p)
 	s.run()
 	res := &prog.Result{}
 	if s.discard != "" {
 		res.Discard = true
-		return res
+		return res, s
 	}
 	dump := func() string {
 		l := s.log
@@ -1116,7 +1159,36 @@ func run(p Prog) *prog.Result {
 	prog.Count(testName, "prepared-round-changes", s.preparedRC)
 	prog.Count(testName, "justified-proposals", s.justProposal)
 	res.Classes = cl
-	return res
+	return res, s
+}
+
+// TestTraceOne prints the full trace of the program in the file named by $C10_PROG (a debugging aid, not a check).
+func TestTraceOne(t *testing.T) {
+	f := os.Getenv("C10_PROG")
+	if f == "" {
+		t.Skip("no C10_PROG")
+	}
+	raw, err := os.ReadFile(f)
+	if err != nil {
+		t.Fatal(err)
+	}
+	var ff prog.FailFile
+	var p Prog
+	if json.Unmarshal(raw, &ff) == nil && len(ff.Program) > 0 {
+		raw = ff.Program
+	}
+	if err := json.Unmarshal(raw, &p); err != nil {
+		t.Fatal(err)
+	}
+	verbose = true
+	res, s := runSim(p)
+	if s != nil {
+		fmt.Println(strings.Join(s.log, "\n"))
+	}
+	fmt.Printf("classes: %v\nnon-trivial: %v discard: %v\n", res.Classes, res.NonTrivial, res.Discard)
+	if res.Fail != nil {
+		fmt.Printf("FAIL %s\n%s\n", res.Fail.Sig, strings.SplitN(res.Fail.Msg, "\ntrace:", 2)[0])
+	}
 }
 
 func sane(p Prog) string {
@@ -1156,7 +1228,7 @@ func gen(t *rapid.T) Prog {
 		N:      rapid.SampledFrom([]int{4, 4, 7}).Draw(t, "n"),
 		Role:   rapid.SampledFrom([]int{0, 0, 1, 2, 2, 3, 4}).Draw(t, "role"),
 		Signed: rapid.Bool().Draw(t, "signed"),
-		Verify: rapid.IntRange(0, 3).Draw(t, "verify") == 0,
+		Verify: rapid.IntRange(0, 5).Draw(t, "verify") == 0,
 	}
 	p.SlotOff = rapid.IntRange(0, 31).Draw(t, "slot_off")
 	role := spectypes.BeaconRole(p.Role)
@@ -1171,7 +1243,9 @@ func gen(t *rapid.T) Prog {
 		p.SyncIdx = rapid.SliceOfNDistinct(rapid.IntRange(0, syncCommitteeSize-1), k, k, rapid.ID[int]).Draw(t, "sync_idx") // positions in the committee: distinct
 	}
 	// shape: 0 fault-free on time, 1 fault-free with late starters, 2 silent operators, 3 silent operators + late starters
-	shape := rapid.SampledFrom([]int{0, 1, 1, 1, 2, 3, 3, 3}).Draw(t, "shape")
+	// 4 = "prepared": 1..f operators that never send a commit + f+1-that-many correct late starters: the operators
+	// present in the first rounds reach a prepare quorum but no commit quorum, so round changes carry prepared values
+	shape := rapid.SampledFrom([]int{0, 1, 1, 1, 2, 3, 3, 3, 4, 4, 4}).Draw(t, "shape")
 	common := 0
 	if role == spectypes.BNRoleAttester || role == spectypes.BNRoleSyncCommittee {
 		common = rapid.IntRange(300, 4000).Draw(t, "block_arrival") // scheduler waits for the head block or one third of the slot
@@ -1192,7 +1266,16 @@ func gen(t *rapid.T) Prog {
 		sort.Ints(ids)
 		for _, id := range ids {
 			s := Silence{Op: id}
-			switch rapid.SampledFrom([]string{"mute", "mute", "rounds", "nocommit", "crash"}).Draw(t, "fkind") {
+			kinds := []string{"mute", "mute", "rounds", "nocommit", "crash"}
+			if shape == 4 {
+				kinds = []string{"nevercommit"}
+			}
+			switch rapid.SampledFrom(kinds).Draw(t, "fkind") {
+			case "nevercommit":
+				s.NoCommitRounds = 0xffffffff
+				if rapid.IntRange(0, 3).Draw(t, "fnc_then_mute") == 0 {
+					s.DropRounds = ^uint32(0) << uint(rapid.IntRange(1, 3).Draw(t, "fnc_mute_from")) // goes quiet altogether from some round on
+				}
 			case "mute":
 				s.DropRounds = 0xffffffff
 				s.DropPartial = rapid.Bool().Draw(t, "fpartial")
@@ -1208,9 +1291,12 @@ func gen(t *rapid.T) Prog {
 			p.Faulty = append(p.Faulty, s)
 		}
 	}
-	if shape == 1 || shape == 3 {
-		// enough late starters that no quorum is present until the first of them arrives
-		nl := rapid.IntRange(maxInt(1, f+1-nf), p.N-1-nf).Draw(t, "nlate")
+	if shape == 1 || shape == 3 || shape == 4 {
+		// enough late starters that no (commit) quorum is present until the first of them arrives
+		nl := f + 1 - nf
+		if shape != 4 {
+			nl = rapid.IntRange(maxInt(1, f+1-nf), p.N-1-nf).Draw(t, "nlate")
+		}
 		cand := []int{}
 		isF := map[int]bool{}
 		for _, s := range p.Faulty {
@@ -1241,6 +1327,9 @@ func gen(t *rapid.T) Prog {
 	inOrderPct := 65
 	if shape >= 2 {
 		inOrderPct = 25
+	}
+	if shape == 4 {
+		inOrderPct = 50
 	}
 	p.InOrder = rapid.IntRange(0, 99).Draw(t, "in_order") < inOrderPct
 	if p.InOrder {
